@@ -5,6 +5,19 @@ _OVERLAY_REAL = dict(_OVERLAY, **{"internal/rules/zz_verif_c14_real_test.go": "c
 _OVERLAY_HISTORY = dict(_OVERLAY, **{"internal/rules/zz_verif_c14_history_test.go": "c14/c14_history_test.go"})
 _OVERLAY_WIRING = dict(_OVERLAY, **{"internal/rules/zz_verif_c14_wiring_test.go": "c14/c14_wiring_test.go"})
 
+
+
+def _per_stream():
+    """evaluations per stream of this run (lines of the observation files), so that the evidence shows all five streams ran"""
+    import os
+    import vf
+    out = {}
+    for name in ("factory", "history", "ruleset", "realfactory", "wiring"):
+        p = os.path.join(vf.OUT, "C14", "obs_%s.jsonl" % name)
+        out[name] = sum(1 for _ in open(p)) if os.path.exists(p) else 0
+    return {"per_stream": out}
+
+
 P = {
     "id": "C14",
     "coq_targets": ["Properties/C14.vo", "Run/Eval_C14.vo"],
@@ -12,8 +25,9 @@ P = {
     "theorems": ["C14_factory_meets_spec", "C14_stagewise_inheritance", "C14_malformed_rejected", "C14_wellformed_accepted",
                  "C14_default_rule_meets_spec", "C14_pipeline_language", "C14_reading_in_scope",
                  "C14_history_meets_spec", "C14_ruleset_all_or_nothing", "C14_ruleset_one_bad_rejects", "C14_ruleset_meets_spec",
-                 "C14_trace_success", "C14_trace_failure", "C14_stage_kinds",
-                 "C14_corr_implies_prop", "C14_corr_implies_prop_set", "C14_prop_sound", "C14_prop_rejects_bad_default", "C14_nonvacuous"],
+                 "C14_trace_success", "C14_trace_failure", "C14_trace_fin_failure", "C14_trace_authn_failure",
+                 "C14_stage_kinds", "C14_default_stage_kinds",
+                 "C14_corr_implies_prop", "C14_corr_implies_prop_ids", "C14_corr_implies_prop_set", "C14_prop_sound", "C14_prop_rejects_bad_default", "C14_nonvacuous"],
     "streams": [{
         "name": "factory", "pkg": "./internal/rules", "test": "TestVerifC14", "overlay": _OVERLAY,
         "eval_module": "Run.Eval_C14", "check_term": "check",
@@ -46,7 +60,7 @@ P = {
             "set and the preloaded rules), every call evaluated on its own, (ruleset) YAML text through the real parser, processor (OnCreated, or OnUpdated over "
             "0-3 preloaded rules) and repository, (wiring) the fx Module of the rules package with the real file_system provider and "
             "rule executor, (realfactory) the real mechanism factory over 14 real mechanisms with type-specific valid and invalid "
-            "overrides. Observed through rule.Rule / rule.Repository / rule.Executor only (factory, ruleset, wiring): Execute on 12 "
+            "overrides. Observed through rule.Rule / rule.Repository / rule.Executor only (factory, history, ruleset, wiring): Execute on 12 "
             "probe requests (GET/POST/PUT x nothing fails / authenticators fail / authorization stage fails / finalization stage "
             "fails) -> error flag and trace of (kind, id, override marker), AllowsBacktracking(), accepted/rejected, which rule "
             "serves /p0../p3; realfactory: accepted/rejected and mechanism ids per stage. Non-trivial = inside the scope of the "
@@ -79,10 +93,13 @@ P = {
                   "own/default/off) and rejects exactly what the specification rejects, each clause of the statement also as a "
                   "theorem of its own; that the rule-set loader (parser validation, version, factory; creation and update) accepts a "
                   "set iff it accepts every rule and otherwise leaves the source's rules untouched; that the executed trace is the "
-                  "effective pipeline stage by stage; and that an implementation showing what the model shows satisfies the "
+                  "effective pipeline stage by stage in each of the four probe modes (nothing fails; authenticators, authorization "
+                  "stage, finalization stage fail); and that an implementation showing what the model shows satisfies the "
                   "property predicate. The model is tied to the code by running both on ~4000 (quick) / ~100000 (thorough) generated "
                   "cases per run in five streams and comparing executed traces, load results and served rules; the property "
-                  "predicate (built from the specification alone) is evaluated on the implementation's observation.",
+                  "predicate compares the implementation's observation with the observation of the SPECIFICATION's effective rule, "
+                  "projected by the model's execution / lookup functions run, lookup, observe_ids (run is characterised by the "
+                  "C14_trace_* theorems); only the effective rule comes from the specification alone.",
     "level_note": "Scope: a step map with several mechanism keys and an `if` on an authenticator step are outside the statement; for "
                   "them only the model's reading (first key in a fixed order, condition ignored) is characterised "
                   "(C14_pipeline_language) and compared, the property predicate demands nothing. The statement does not say that "
@@ -91,11 +108,14 @@ P = {
                   "rule: a factory that exists over a default rule the specification rejects fails the predicate. Error kinds/texts are not "
                   "compared (histogram only). Trusted: Coq kernel/vm_compute; the harness (generators, stub mechanisms, probe "
                   "contexts, Gallina rendering); the catalogue/override oracle and the CEL truth table as listed under trusted. "
-                  "No finding is open; C14-F1 was repaired by 97aaffa (history lemma F1_pinned_refuted in C14/Proofs.v, not an "
-                  "obligation).",
+                  "No finding is open; C14-F1 was repaired by 97aaffa; C14_F1_pinned_refuted (Properties/C14.v, with Print "
+                  "Assumptions; lemma F1_pinned_refuted in C14/Proofs.v) documents the behaviour before that commit and is the one "
+                  "theorem of the file that is not an obligation. C14_history_meets_spec holds by construction of the model (no "
+                  "state between calls); that the code has no such memory is checked by the history stream only.",
+    "extra_coverage": lambda: _per_stream(),
     "assumptions": ["the realfactory stream reads the ids of the created mechanisms from the rule's private stage slices "
                     "(in-package, own file): renaming those fields stops that stream's driver (reported as correspondence "
-                    "broken, no failing input), not the other three streams, which use rule.Rule/rule.Repository/rule.Executor only",
+                    "broken, no failing input), not the other four streams (factory, history, ruleset, wiring), which use rule.Rule/rule.Repository/rule.Executor only",
                     "the drivers are compiled together with the repository's own in-package tests of internal/rules; if those do "
                     "not compile, no stream runs"],
 }
